@@ -91,12 +91,18 @@ def run_level(ctx, rep):
         lam = int(t["hdr"]["opts"]["n_search"] / t["hdr"]["opts"]["n_search_iter"])
         gens = []
         es_out = []
+        reported = set()
         for k, e in t["events"]:
             if k == "FILT" and e["site"] in ("es", "search") and e.get("out") and e.get("sms"):
                 box_reqs.append({"cmd": "mesh.bounds", "h": enc(e["sms"]), "lb": [enc(v) for v in t["hdr"]["lb"]], "ub": [enc(v) for v in t["hdr"]["ub"]]})
                 box_owners.append((case, tag, e))
             if k == "FILT" and e["site"] == "es":
                 es_out.append(e["n_out"])
+                # "survived feasibility filtering": judged by the run's own constraint function, not by what the strategy's filter was handed
+                if e.get("out_infeasible") and "es_feasible" not in reported:
+                    reported.add("es_feasible")
+                    rep.violation("es_survivors_feasible", SITE_E, f"{e['out_infeasible']} of the {e['n_out']} candidates the evolution strategy keeps, ranks and breeds from "
+                                  f"violate the non-box constraint (the strategy's filter was {'not ' if not e['has_cons'] else ''}handed the constraint function); {tag}", case)
             if k == "ACQ" and e["site"] == "es":
                 stats["es_generations"] += 1
                 if e["n"] == 0:
